@@ -59,6 +59,18 @@ def run_inject(W, cfg):
             ok = False
         seen[k] = j
     W.ob_true('closed form is one-to-one', ok)
+    # the real mapping asked in descending, ascending and scattered order within one process: the answer for an index does not depend
+    # on which indices were asked before
+    Z = W.mod('zernike')
+    top = cfg['top']
+    order = list(range(top, 0, -1)) + list(range(1, top + 1)) + [(7 * k) % top + 1 for k in range(top)]
+    bad = []
+    for j in order:
+        m, n = Z.zernike_index(j)
+        nn, mm = zern.noll(j)
+        if (int(n), int(m)) != (nn, mm):
+            bad.append(j)
+    W.ob_true('zernike_index agrees with the closed form whatever the order of the calls', not bad)
 
 
 # ------------------------------------------------------------------ radial polynomials
